@@ -58,7 +58,7 @@ def make_config(rng, n_wfs=None, max_n=5, cls="random"):
     n_layers = int(rng.choice([1, 1, 2, 3, 4]))
     alts = [float(a) for a in rng.choice([0.0, 0.0, 250.0, 4000.0, 9000.0, 12000.0], n_layers)]
     r0s = [float(10 ** rng.uniform(-1.3, 0.3)) for _ in range(n_layers)]
-    L0s = [float(rng.choice([1.0, 10.0, 25.0, 100.0, 1000.0])) for _ in range(n_layers)]
+    L0s = [float(rng.choice([1.0, 10.0, 25.0, 100.0, 1000.0, 2e5, 1e6])) for _ in range(n_layers)]
     return {"n_wfs": n_wfs, "pupil_masks": masks, "telescope_diameter": D, "subap_diameters": ds,
             "gs_altitudes": Hs, "gs_positions": pos, "wfs_wavelengths": lam, "n_layers": n_layers,
             "layer_altitudes": alts, "layer_r0s": r0s, "layer_L0s": L0s, "class": cls}
@@ -96,8 +96,9 @@ def construct(aotools, cfg, threads=1, as_arrays=False):
 def summary(cfg):
     return {"class": cfg.get("class"), "n_wfs": cfg["n_wfs"],
             "masks": ["".join("|" + "".join(str(int(v)) for v in row) for row in m) for m in cfg["pupil_masks"]],
-            "D": cfg["telescope_diameter"], "d": cfg["subap_diameters"], "gs_alt": cfg["gs_altitudes"],
-            "gs_pos": cfg["gs_positions"], "lambda": cfg["wfs_wavelengths"],
+            "D": cfg["telescope_diameter"], "d": [float(v) for v in cfg["subap_diameters"]], "gs_alt": cfg["gs_altitudes"],
+            "gs_pos": cfg["gs_positions"], "lambda": [float(v) for v in cfg["wfs_wavelengths"]],
+            "param_dtype": str(np.asarray(cfg["wfs_wavelengths"]).dtype), "n_layers": cfg["n_layers"],
             "layers": list(zip(cfg["layer_altitudes"], cfg["layer_r0s"], cfg["layer_L0s"]))}
 
 
